@@ -191,4 +191,62 @@ theorem C03_no_signature_rejected (validators : List String) : multiSign validat
 example : multiSign ["a", "b", "c", "d"] [some "a", some "b"] = .ok ∧
     multiSign ["a", "b", "c", "d"] [some "a", some "a", some "a", some "x", none] = .fail 1 := by decide
 
+/-! ### what the executor model's proof kind `msig k` stands for -/
+
+/-- distinct signers: the signatures that count are those of registered validators -/
+theorem cnt_nodup (signers : List String) (m : List String) (hnd : signers.Nodup) :
+    cnt m (signers.map some) = (signers.filter (m.contains ·)).length := by
+  induction signers generalizing m with
+  | nil => simp [cnt]
+  | cons a r ih =>
+    have ha : a ∉ r := (List.nodup_cons.mp hnd).1
+    have hr : r.Nodup := (List.nodup_cons.mp hnd).2
+    simp only [List.map_cons, cnt]
+    have hcongr : r.filter ((m.filter (· ≠ a)).contains ·) = r.filter (m.contains ·) := by
+      apply List.filter_congr
+      intro x hx
+      have hxa : x ≠ a := fun h => ha (h ▸ hx)
+      simp [hxa]
+    by_cases hm : m.contains a = true
+    · simp only [hm, if_true, List.filter_cons]
+      rw [ih _ hr, hcongr]
+      simp [Nat.add_comm]
+    · have hm' : m.contains a = false := by simpa using hm
+      simp only [hm', List.filter_cons, Bool.false_eq_true, if_false]
+      exact ih _ hr
+
+theorem filter_take_append (vs ext : List String) (k : Nat) (hnd : (vs ++ ext).Nodup) :
+    (((vs ++ ext).take k).filter (vs.contains ·)).length = min k vs.length := by
+  rw [List.take_append, List.filter_append, List.length_append]
+  have h1 : (vs.take k).filter (vs.contains ·) = vs.take k := by
+    apply List.filter_eq_self.mpr
+    intro x hx
+    simpa using List.mem_of_mem_take hx
+  have h2 : (ext.take (k - vs.length)).filter (vs.contains ·) = [] := by
+    apply List.filter_eq_nil_iff.mpr
+    intro x hx
+    have hxe : x ∈ ext := List.mem_of_mem_take hx
+    have := (List.nodup_append.mp hnd).2.2
+    simp only [List.contains_eq_mem, decide_eq_true_eq]
+    intro hxv
+    exact this x hxv x hxe rfl
+  rw [h1, h2, List.length_take]
+  simp
+
+/-- **the `msig k` verdict of the executor model is the threshold rule of `verifyMultiSign`**: with the registered validators `vs`
+and `k` distinct signers — the validators in their order, then addresses nobody registered (`ext`) — the multi-signature check
+accepts iff more than `(n-1)/3` of the `n` registered validators are among the signers, i.e. iff `min k n > (n-1)/3`: the very
+condition `proofVerdict` uses for an IBTP relayed from a registered BitXHub (`C03_verdict_none_iff`).  (`multiSign` is compared
+with the real `verifyMultiSign` over real secp256k1 signatures by the `msig` engine.) -/
+theorem C03_msig_kind_is_threshold_rule (vs ext : List String) (k : Nat) (hnd : (vs ++ ext).Nodup) :
+    multiSign vs (((vs ++ ext).take k).map some) = .ok ↔ min k vs.length > (vs.length - 1) / 3 := by
+  rw [C03_multisign_ok_iff, cnt_nodup _ _ (List.Nodup.sublist (List.take_sublist _ _) hnd), filter_take_append vs ext k hnd]
+
+-- non-vacuity: four validators, signers val-1 … val-k (val-5, val-6 unregistered): one signer fails, two pass, six pass
+example :
+    let vs := ["v1", "v2", "v3", "v4"]
+    let ext := ["v5", "v6"]
+    multiSign vs (((vs ++ ext).take 1).map some) ≠ .ok ∧ multiSign vs (((vs ++ ext).take 2).map some) = .ok ∧
+    multiSign vs (((vs ++ ext).take 6).map some) = .ok := by decide
+
 end Bxh.Props.C03
